@@ -1414,6 +1414,8 @@ class Exec:
                 if tlo <= slo and shi <= thi:
                     return IntV(v.t, tgt)
                 return IntV(self.wrap(v.t, tgt), tgt)
+        if kind == "Subtype":      # lifetime-only subtyping: no run-time effect
+            return v
         if kind in ("Transmute", "PtrToPtr", "FnPtrToPtr") or kind.startswith("PointerCoercion"):
             if kind == "Transmute" and ty.strip().startswith("*"):
                 # NonNull<T> / Unique<T> -> raw pointer: the wrapper's only field
